@@ -49,7 +49,7 @@ def gen_programs(rng, n, depth, allow_tensor_consts):
                     e = reshape(a, (tot,) if len(sh) != 1 else (tot, 1))
                 else:       # shared sub-expression used twice (non-commutative op)
                     a = rng.choice(exprs)
-                    e = binary("sub", binary("mul", a, a), a)
+                    e = rng.choice([binary("sub", binary("mul", a, a), a), binary("sub", a, unary("neg", a)), binary("add", a, binary("mul", a, num(2.0)))])
             except Exception:
                 continue
             if well_typed(e) and type_of(e)[1][0] in ("real", 2):
@@ -63,8 +63,14 @@ def gen_programs(rng, n, depth, allow_tensor_consts):
     return out
 
 
-def ops_eval(e, data, leaves):
-    """the same expression as a plain function of funsor.ops on backend arrays (for trace_function)"""
+def ops_eval(e, data, leaves, memo=None):
+    """the same expression as a plain function of funsor.ops on backend arrays (for trace_function); with `memo`
+    equal sub-expressions are computed once and their value is reused (a shared intermediate in the traced DAG)"""
+    if memo is not None:
+        if e in memo:
+            return memo[e]
+        memo[e] = r = ops_eval(e, data, leaves, None) if e[0] in ("var", "num", "leaf") else _ops_eval_shared(e, data, leaves, memo)
+        return r
     import funsor.ops as ops
     tag = e[0]
     if tag == "var":
@@ -86,6 +92,26 @@ def ops_eval(e, data, leaves):
     if tag == "reshape":
         from funsor.ops.array import reshape
         return reshape(ops_eval(e[1], data, leaves), e[2])
+    raise NotImplementedError(tag)
+
+
+def _ops_eval_shared(e, data, leaves, memo):
+    import funsor.ops as ops
+    tag = e[0]
+    ev = lambda x: ops_eval(x, data, leaves, memo)      # noqa: E731
+    if tag == "unary":
+        return getattr(ops, e[1])(ev(e[2]))
+    if tag == "binary":
+        return getattr(ops, e[1])(ev(e[2]), ev(e[3]))
+    if tag == "outreduce":
+        return getattr(ops, e[1])(ev(e[2]), axis=e[3], keepdims=e[4])
+    if tag == "getitem":
+        return ops.getitem(ev(e[1]), ev(e[2]))
+    if tag == "getslice":
+        return ops.getslice(ev(e[1]), e[2])
+    if tag == "reshape":
+        from funsor.ops.array import reshape
+        return reshape(ev(e[1]), e[2])
     raise NotImplementedError(tag)
 
 
@@ -167,10 +193,15 @@ def build_obligation(inst):
                             pass
                         pairs.append((z3.BoolVal(ok) if mk.symbolic else ok, None))
                         continue
-                elif mode == "trace":
+                elif mode in ("trace", "trace_shared", "trace_extra"):
                     def fn(**kw):
-                        return ops_eval(prog, kw, leaves)
-                    program = trace_function(fn, dict(dat), allow_constants=True)
+                        return ops_eval(prog, kw, leaves, {} if mode == "trace_shared" else None)
+                    if mode == "trace_extra":      # an input the function does not use (listed last)
+                        dat["zz_unused"] = mk.array("in_zz", (2,), "real")
+                    try:
+                        program = trace_function(fn, dict(dat), allow_constants=True)
+                    except (KeyError, ValueError, AssertionError) as e:
+                        raise Decline("tracer rejects the function: %s: %s" % (type(e).__name__, str(e)[:60]))
                     got = program(**dat)
                     pairs.append((got, fn(**dat)))
             except (NotImplementedError,) as e:
@@ -194,10 +225,18 @@ def instances(tier, seed):
     rng = random.Random(seed)
     out = []
     n = 60 if tier == "quick" else 600
+    from lang.prog import var as _var
+    for k, d in VARS.items():
+        if d[0] == "real":
+            out.append(("p", _var(k, d), "trace_extra"))      # the traced function returns one of its inputs
+            out.append(("p", _var(k, d), "trace"))
+            out.append(("p", _var(k, d), "compile"))
     for p in gen_programs(rng, n, 3 if tier == "quick" else 4, True):
         out.append(("p", p, "compile"))
         if rng.random() < 0.5:
             out.append(("p", p, "trace"))
+        if rng.random() < 0.5:
+            out.append(("p", p, rng.choice(["trace_shared", "trace_extra"])))
         if rng.random() < 0.2:
             out.append(("p", p, "kwargs"))
     # parametrised ops with an earlier parameter at its default and a later one not (printing / pickling of op params)
